@@ -40,7 +40,7 @@ func (d *dkgAnchors) resolveRoles(w *World) {
 			return f != nil && f.Signature.Recv() != nil && types.Identical(deref(f.Signature.Recv().Type()), t) && f.Blocks != nil
 		}
 		if hp := w.method(t, "HandlePrivateMsg"); hp != nil {
-			instrs(hp, func(ins ssa.Instruction) {
+			instrsFlat(hp, func(ins ssa.Instruction) {
 				if c, ok := ins.(*ssa.Call); ok && isOwn(c.Call.StaticCallee()) && len(c.Call.Args) == 3 {
 					r["share"] = c.Call.StaticCallee().Name()
 				}
@@ -48,7 +48,7 @@ func (d *dkgAnchors) resolveRoles(w *World) {
 		}
 		if hb := w.method(t, "HandleBroadcastMsg"); hb != nil {
 			msg := P(hb, 2)
-			instrs(hb, func(ins ssa.Instruction) {
+			instrsFlat(hb, func(ins ssa.Instruction) {
 				c, ok := ins.(*ssa.Call)
 				if !ok || !isOwn(c.Call.StaticCallee()) || len(c.Call.Args) != 3 {
 					return
@@ -63,7 +63,7 @@ func (d *dkgAnchors) resolveRoles(w *World) {
 			})
 		}
 		for _, fn := range w.srcFuncs(rootPath) {
-			if !isOwn(fn) || len(cgoCalls(fn, "G2_check_log")) == 0 {
+			if !isOwn(fn) || len(cgoCallsFlat(fn, "G2_check_log")) == 0 {
 				continue
 			}
 			if len(fn.Params) == 1 {
@@ -73,6 +73,16 @@ func (d *dkgAnchors) resolveRoles(w *World) {
 			}
 		}
 		d.rolesOf[t] = r
+		// functions found by role are known to the rules under whatever name they carry today
+		for _, fn := range w.srcFuncs(rootPath) {
+			if isOwn(fn) {
+				for _, n := range r {
+					if fn.Name() == n {
+						knownByRole[fn] = true
+					}
+				}
+			}
+		}
 	}
 }
 
